@@ -123,10 +123,11 @@ Proof.
 Qed.
 
 Definition amb_plain : Ambient :=
-  {| env := fun _ => None; wallclock := 0; gomaxprocs := 1;
+  {| env := fun _ => None; wallclock := 0; gomaxprocs := 1; tz := fun _ => 0;
      ord_infos := fun l => l; ord_groups := fun l => l; ord_updates := fun l => l; ord_keys := fun l => l |}.
 Definition amb_other : Ambient :=
   {| env := fun n => if String.eqb n ff_name then Some "1"%string else None; wallclock := 1700000000; gomaxprocs := 16;
+     tz := fun _ => 32400;
      ord_infos := @rev _; ord_groups := @rev _; ord_updates := @rev _; ord_keys := @rev _ |}.
 
 Lemma amb_plain_ok : amb_ok amb_plain.
@@ -412,13 +413,14 @@ Qed.
 
 Theorem step_noninterference a a' s tx : amb_ok a -> amb_ok a' -> tx_wf tx -> step_amb a s tx = step_amb a' s tx.
 Proof.
-  intros Ha Ha' Hwf. destruct tx as [m|h sn ms fs w chain req ts|ups|keys present|keys present|gk sn evs]; simpl.
+  intros Ha Ha' Hwf. destruct tx as [m|h sn ms fs w chain req ts|ups|keys present|keys present|gk sn evs|t months]; simpl.
   - now rewrite (status_update_ignores_ambient a a').
   - now rewrite (pick_body_ignores_ambient a a') by assumption.
   - simpl in Hwf. now rewrite (purge_amb_eq a), (purge_amb_eq a') by assumption.
   - now rewrite (any_missing_amb_eq a), (any_missing_amb_eq a') by assumption.
   - now rewrite (sorted_missing_amb_eq a), (sorted_missing_amb_eq a') by assumption.
   - destruct Hwf as (Hsn & Hnd). now rewrite (verify_evidence_amb_indep gk a a') by assumption.
+  - reflexivity.
 Qed.
 
 Definition same_history (x y : Ambient * Tx) : Prop :=
